@@ -224,3 +224,41 @@ func VerifC07_Edit(cs int) {
 	VsAssert("edited-copy-not-deep-equal", !e1)
 	VsAssert("tree-not-deep-equal-to-edited-copy", !e2)
 }
+
+// VerifC07_PermuteDeep: permutation one level down: a child of each of the 8 kinds (cs%8) with 2 or 3
+// children of its own (cs/8%2; plain, PLAC and NAME values symbolic, optionally an exact-year DATE by
+// cs/16%2) is deep-equal to a copy whose grandchildren are re-ordered, in both directions, directly
+// and inside a root.
+func VerifC07_PermuteDeep(cs int) {
+	kind, n, dated := cs%8, cs/8%2+2, cs/16%2 == 1
+	mkGrand := func(i int) Node {
+		if dated && i == 0 {
+			return NewNode(TagDate, VsDecimal(VsInt("gy", 1000, 2999), 4), "")
+		}
+		return vNewNodeOfKind(fmt.Sprintf("g%d", i), []int{0, 7, 6}[i])
+	}
+	child := vNewNodeOfKind("c", kind)
+	var grands Nodes
+	for i := 0; i < n; i++ {
+		g := mkGrand(i)
+		grands = append(grands, g)
+		child.AddNode(g)
+	}
+	perm := vPerms3[VsChoose("perm", 6)]
+	copyChild := child.ShallowCopy()
+	for _, j := range perm {
+		if j < n {
+			copyChild.AddNode(DeepCopy(grands[j], NewDocument()))
+		}
+	}
+	VsObserve(child.GEDCOMString(0))
+	VsObserve(copyChild.GEDCOMString(0))
+	VsReach("permuted-one-level-down")
+	VsClass(vKindNames[kind])
+	VsAssert("deep-equal-to-copy-with-reordered-grandchildren", DeepEqual(child, copyChild))
+	VsAssert("copy-with-reordered-grandchildren-deep-equal-to-node", DeepEqual(copyChild, child))
+	root, other := NewNode(TagFromString("ROOT"), "", ""), NewNode(TagFromString("ROOT"), "", "")
+	root.AddNode(child)
+	other.AddNode(copyChild)
+	VsAssert("trees-deep-equal-when-grandchildren-are-reordered", DeepEqual(root, other) && DeepEqual(other, root))
+}
